@@ -64,3 +64,52 @@ func init() {
 	RegisterGen("C17", genFoldSeqInline)
 	RegisterGen("XFOLD", genFoldSeqInline)
 }
+
+// genFoldSeqRefused: histories on ONE iterator that contain types the folder must refuse (a
+// chan / func / complex field, a non-string map key, inline of a non-object) in plain, pointer,
+// element and INLINE position, each followed by the same and by related types: a refused type
+// must leave nothing behind in the iterator's registry (C11: refused with an error, never a
+// crash; C17: reused = fresh)
+func genFoldSeqRefused(r *Rand, tier string, emit func(string)) {
+	bad := []string{"struct{C:chan:int}", "struct{A:int;F:func}", "struct{Z:complex128}", "map[int]string", "struct{M:map[bool]int}", "struct{A:int;U:uintptr}"}
+	for _, b := range bad {
+		bv := "nil"
+		if strings.HasPrefix(b, "struct") {
+			switch {
+			case strings.Contains(b, "A:int;F:func"):
+				bv = "(1,nil)"
+			case strings.Contains(b, "complex"):
+				bv = "(c:00000000000000000000000000000000)"
+			case strings.Contains(b, "uintptr"):
+				bv = "(1,2)"
+			case strings.Contains(b, "map[bool]"):
+				bv = "(nil)"
+			default:
+				bv = "(nil)"
+			}
+		}
+		roles := [][2]string{
+			{b, bv},
+			{"*" + b, "nil"},
+			{"struct{P:" + b + "}", "(" + bv + ")"},
+			{"struct{Id:int;E:" + b + "`,inline`}", "(1," + bv + ")"},
+			{"struct{Id:int;E:*" + b + "`,inline`;Z:int}", "(1,nil,2)"},
+			{"[]" + b, "[]"},
+			{"map[string]" + b, "{}"},
+			{"struct{X:struct{Y:" + b + "`,inline`}`,inline`}", "((" + bv + "))"},
+			{"struct{A:int}", "(7)"},
+		}
+		for i := range roles {
+			for j := range roles {
+				emit(fmt.Sprintf("fold-seq %s %s %s %s %s %s", roles[i][0], roles[i][1], roles[j][0], roles[j][1], roles[i][0], roles[i][1]))
+			}
+		}
+	}
+}
+
+func init() {
+	RegisterGen("C11", genFoldSeqRefused)
+	RegisterGen("C17", genFoldSeqRefused)
+	RegisterGen("C12", genFoldSeqRefused)
+	RegisterGen("XFOLD", genFoldSeqRefused)
+}
